@@ -332,6 +332,26 @@ func (e *encoderBase) Release() {
 
 func (e *encoderBase) markSide() { e.side = true }
 
+// builtinField and builtinElem report whether a struct field, or an element, key or value
+// of a collection, takes the builtin shortcut: its base type is one that encodeBuiltin
+// handles in a type switch (which includes the fast-path slices and maps), and the value is
+// handed to it with its pointers stripped.
+//
+// A pointer which the circular reference check tracks (see encodeValue) cannot take it:
+// nobody would record it, and a cycle through a *[]interface{} or *map[string]interface{}
+// held in a struct field, slice element or map value was never seen (stack overflow).
+// It goes through encodeValue, which encodes the base value with the same function.
+func (e *encoderBase) builtinField(si *structFieldInfo) bool {
+	return si.encBuiltin &&
+		!(si.ptrKind && e.h.CheckCircularRef && e.ci.canPushElemKind(si.baseTyp.Kind()))
+}
+
+// tibase is the typeInfo of the base type (pointers stripped) and kind the kind of the type itself.
+func (e *encoderBase) builtinElem(tibase *typeInfo, kind uint8) bool {
+	return tibase.flagEncBuiltin &&
+		!(kind == uint8(reflect.Ptr) && e.h.CheckCircularRef && e.ci.canPushElemKind(reflect.Kind(tibase.kind)))
+}
+
 func (e *encoderBase) setContainerState(cs containerState) {
 	if cs != 0 {
 		e.c = cs
